@@ -156,8 +156,8 @@ class Conc(object):
             # the keyword is a part of the host label of dom 1 (vault / vaultsrv.corp.test)
             while True:
                 k = word(rng, HOST1, 2, 2) + word(rng, HOSTN[:15], 2, 4)
-                if not any(k in u for u in list(used) + [self.domain]):
-                    break
+                if not any(k in u or u in k for u in list(used) + [self.domain]):
+                    break           # (used holds the short name: it is replaced wherever it occurs)
             self.kw[1] = k
             self.dom[1] = pick(rng, ["", word(rng, HOST1, 2, 2)]) + k + pick(rng, ["", "srv", "01", "-a"]) + "." + dom
         self.pat = {}       # id -> (configured pattern, text that contains / matches it)
